@@ -1,4 +1,6 @@
 #![allow(dead_code)]
+mod adv;
+mod c01;
 mod check;
 mod data;
 mod e2;
@@ -9,6 +11,7 @@ mod e2f;
 mod worker;
 mod scen;
 mod families;
+mod forge;
 mod host;
 mod mon_err;
 mod mon_local;
